@@ -475,6 +475,9 @@ func (g *generator) executorStep(t metadb.ChannelMigrationTask) (cmdJ, bool) {
 				p := taskProof(t)
 				c.Proof = &p
 				c.Pg = &progJ{LLEO: p.LEO, LHW: p.HW, TLEO: p.LEO, TCHW: p.HW}
+				if vh.Chance(r, 0.12) {
+					g.perturbProof(c.Proof) // a stale / partial proof reaches the commit phase
+				}
 			}
 			return c, true
 		case pCommit:
@@ -482,6 +485,9 @@ func (g *generator) executorStep(t metadb.ChannelMigrationTask) (cmdJ, bool) {
 				if vh.Chance(r, 0.7) {
 					return g.advance(t, sRunning, pFinal), true
 				}
+			}
+			if vh.Chance(r, 0.12) {
+				return g.staleMeta(m), true // the row moves on after the drain: the stored proof is stale
 			}
 			return g.commit(t, m), true
 		case pVerifyL:
@@ -528,6 +534,9 @@ func (g *generator) executorStep(t metadb.ChannelMigrationTask) (cmdJ, bool) {
 		} else {
 			p := taskProof(t)
 			c.Proof = &p
+			if vh.Chance(r, 0.12) {
+				g.perturbProof(c.Proof)
+			}
 		}
 		return c, true
 	case pPromote:
@@ -535,6 +544,9 @@ func (g *generator) executorStep(t metadb.ChannelMigrationTask) (cmdJ, bool) {
 			if vh.Chance(r, 0.7) {
 				return g.advance(t, sRunning, pFinal), true
 			}
+		}
+		if vh.Chance(r, 0.12) {
+			return g.staleMeta(m), true
 		}
 		return g.promote(t, m), true
 	case pVerifyM:
@@ -748,6 +760,19 @@ func (g *generator) upsertMeta(ch chanKey) cmdJ {
 			m.ISR = append(m.ISR, 8)
 		}
 	default: // same row again
+	}
+	return cmdJ{K: "upsert_meta", Meta: &m}
+}
+
+// staleMeta moves the runtime-meta row on (new leader epoch, or new channel epoch) without touching
+// the fence, so that a drain proof recorded before is stale.
+func (g *generator) staleMeta(cur metadb.ChannelRuntimeMeta) cmdJ {
+	m := metaToJ(cur)
+	m.RG = 0
+	if vh.Chance(g.r, 0.7) {
+		m.LE++
+	} else {
+		m.CE++
 	}
 	return cmdJ{K: "upsert_meta", Meta: &m}
 }
